@@ -1,13 +1,13 @@
 package main
 
 import (
-	"golang.org/x/tools/go/packages"
-	"regexp"
 	"fmt"
 	"go/ast"
 	"go/token"
 	"go/types"
+	"golang.org/x/tools/go/packages"
 	"golang.org/x/tools/go/types/typeutil"
+	"regexp"
 	"strings"
 
 	"golang.org/x/tools/go/ssa"
